@@ -71,31 +71,42 @@ Theorem C12_redefinition_detected_perm : forall ss ss', Permutation ss ss' ->
   redefinition_detected ss = redefinition_detected ss'.
 Proof. exact redefinition_detected_perm. Qed.
 
-(* --- which error: the specified choice is order independent; the code's choice (cycle check on the last-definition graph
-       before the overwrite check) is not — witness  A := B; A := X; B := A   vs   A := X; A := B; B := A *)
+(* --- which error: create_dag (duplicate assignment first, then cycles of the last-definition graph over statement keys) makes
+       exactly the specified choice, for every script, hence the same choice in every statement order.  The key step:
+       with unique outputs the code's key graph has a cycle iff some name transitively reads itself. *)
 Theorem C12_outcome_spec_perm : forall ss ss', Permutation ss ss' -> outcome_spec ss = outcome_spec ss'.
 Proof. exact outcome_spec_perm. Qed.
 
-Theorem C12_outcome_impl_order_dependent_refuted :
-  exists ss ss', Permutation ss ss' /\ outcome_impl ss <> outcome_impl ss'.
-Proof. exact outcome_impl_order_dependent. Qed.
+Theorem C12_impl_graph_cycle_iff : forall ss, NoDup (outs ss) -> cycle_detected (impl_view ss) = cycle_detected ss.
+Proof. exact impl_graph_cycle_iff. Qed.
 
-(* --- unknown-variable promotion: a component-looking name that another statement assigns becomes a dependency;
-       the code only looks at := assignments (partial), a name assigned with <- is missed (refuted) *)
+Theorem C12_outcome_impl_is_spec : forall ss, outcome_impl ss = outcome_spec ss.
+Proof. exact outcome_impl_is_spec. Qed.
+
+Theorem C12_outcome_impl_perm : forall ss ss', Permutation ss ss' -> outcome_impl ss = outcome_impl ss'.
+Proof. exact outcome_impl_perm. Qed.
+
+(* the code BEFORE the repair (cycle check before the overwrite check) chose by order: A := B; A := X; B := A  vs  A := X; A := B; B := A *)
+Theorem C12_outcome_before_fix_order_dependent :
+  exists ss ss', Permutation ss ss' /\ outcome_before_fix ss <> outcome_before_fix ss'.
+Proof. exact outcome_before_fix_order_dependent. Qed.
+
+(* --- unknown-variable promotion: a component-looking name that another statement assigns (with := or <-) becomes a dependency;
+       the code before the repair looked at := assignments only and missed names assigned with <- *)
 Theorem C12_unknown_variable_promotion : forall rs r v,
   In r rs -> In v (r_unk r) -> In v (assigned_any rs) ->
-  exists s, In s (promote_spec rs) /\ s_out s = r_out r /\ In v (s_deps s).
+  exists s, In s (promote_impl rs) /\ s_out s = r_out r /\ In v (s_deps s).
 Proof. exact unknown_variable_promotion_spec. Qed.
 
-Theorem C12_unknown_variable_promotion_impl_partial : forall rs r v,
+Theorem C12_unknown_variable_promotion_before_fix_partial : forall rs r v,
   In r rs -> In v (r_unk r) -> In v (assigned_nonpers rs) ->
-  exists s, In s (promote_impl rs) /\ s_out s = r_out r /\ In v (s_deps s).
-Proof. exact unknown_variable_promotion_impl_partial. Qed.
+  exists s, In s (promote_before_fix rs) /\ s_out s = r_out r /\ In v (s_deps s).
+Proof. exact unknown_variable_promotion_before_fix_partial. Qed.
 
-Theorem C12_unknown_variable_promotion_impl_refuted :
+Theorem C12_unknown_variable_promotion_before_fix_refuted :
   exists rs r v, In r rs /\ In v (r_unk r) /\ In v (assigned_any rs) /\
-                 forall s, In s (promote_impl rs) -> s_out s = r_out r -> ~ In v (s_deps s).
-Proof. exact unknown_variable_promotion_impl_refuted. Qed.
+                 forall s, In s (promote_before_fix rs) -> s_out s = r_out r -> ~ In v (s_deps s).
+Proof. exact unknown_variable_promotion_before_fix_refuted. Qed.
 
 (* --- the hypotheses are satisfiable: a semantics reading only its dependencies, a sorter meeting the specification,
        a concrete script written in a non-executable order with two validated orders *)
@@ -124,7 +135,10 @@ Print Assumptions C12_model_sort_correct.
 Print Assumptions C12_redefinition_detected_iff.
 Print Assumptions C12_redefinition_detected_perm.
 Print Assumptions C12_outcome_spec_perm.
-Print Assumptions C12_outcome_impl_order_dependent_refuted.
+Print Assumptions C12_impl_graph_cycle_iff.
+Print Assumptions C12_outcome_impl_is_spec.
+Print Assumptions C12_outcome_impl_perm.
+Print Assumptions C12_outcome_before_fix_order_dependent.
 Print Assumptions C12_unknown_variable_promotion.
-Print Assumptions C12_unknown_variable_promotion_impl_partial.
-Print Assumptions C12_unknown_variable_promotion_impl_refuted.
+Print Assumptions C12_unknown_variable_promotion_before_fix_partial.
+Print Assumptions C12_unknown_variable_promotion_before_fix_refuted.
